@@ -126,6 +126,32 @@ func timeoutSetup(s *rt.Sim, tier string) func() {
 			rt.Violate("C14/could-not-reach-state", "%s %s: path of %d messages did not bring the endpoint to %s (states %v, errs %v)", impl.Label, roleName(localRole), len(path), target.Name, ep.states, ep.errs)
 			return
 		}
+		// states that can be re-entered by their own messages (block-fetch
+		// Streaming, the harness never dwells longer than 0.6 T between them):
+		// each re-entry must restart the timer, none may leave a stale one behind
+		var selfLoops []protocol.StateTransition
+		for _, tr := range sm[target].Transitions {
+			if tr.NewState == target {
+				selfLoops = append(selfLoops, tr)
+			}
+		}
+		if len(selfLoops) > 0 && T > 0 && chance("op", 1, 2) {
+			for k := 0; k < 1+pick("op", 3); k++ {
+				sleep(T * 6 / 10)
+				if !move(target, selfLoops[pick("op", len(selfLoops))]) {
+					rt.Hit("timeout.path-failed")
+					return
+				}
+				sleep(time.Millisecond)
+				for _, e := range ep.errs {
+					if strings.Contains(e.Error(), "timeout waiting on transition") {
+						rt.Violate("C14/spurious-timeout", "%s %s state %s (timeout %v) was re-entered by its own message every 0.6 T, yet after %d re-entries: %v", impl.Label, roleName(localRole), target.Name, T, k+1, e)
+						return
+					}
+				}
+			}
+			rt.Hit("timeout.self-loop-reentry")
+		}
 		t0 := rt.Now() // within 2 ms of the state entry
 		// dwell
 		type dwellOpt struct {
